@@ -157,6 +157,75 @@ pub fn export_round(n: usize) {
     }
 }
 
+/// The reference grammar must agree with every assertion of the hidden doc TEST blocks of
+/// lexical-util/src/format_builder.rs (extracted into corpus/doc_tests.json).
+fn check_doc_tests() -> usize {
+    use vcore::fmodel::FormatModel;
+    use vcore::refparse::*;
+    let dir = std::env::var("VERIF_DIR").unwrap_or_else(|_| "/verif".into());
+    let txt = match std::fs::read_to_string(format!("{dir}/corpus/doc_tests.json")) {
+        Ok(t) => t,
+        Err(e) => {
+            eprintln!("selftest: cannot read doc_tests.json: {e}");
+            return 1;
+        },
+    };
+    let v: serde_json::Value = serde_json::from_str(&txt).unwrap();
+    let mut bad = 0;
+    let mut n = 0;
+    for t in v.as_array().unwrap() {
+        let packed = u128::from_str_radix(t["format"].as_str().unwrap().trim_start_matches("0x"), 16).unwrap();
+        let m = FormatModel::decode(packed);
+        let input = unhex(t["input_hex"].as_str().unwrap());
+        let expect_ok = t["expect"].as_str() == Some("ok");
+        let ty = t["type"].as_str().unwrap();
+        let mut o = OptModel::standard();
+        if t["options"].as_str().unwrap().ends_with("RDX") {
+            o.exponent = b'^';
+        }
+        n += 1;
+        let (accepted, detail) = if ty.starts_with('f') {
+            match ref_parse_float(&input, &m, &o) {
+                RefF::Reject(why) => (false, why.to_string()),
+                RefF::Num(p) => {
+                    // compare the value with the documented one when it is a plain float literal
+                    let r = round_parts(F64, &p, m.radices());
+                    let bits = if p.neg { r.bits | F64.sign_mask() } else { r.bits };
+                    let want: Option<f64> = t["detail"].as_str().and_then(|d| d.trim().parse::<f64>().ok());
+                    if let (true, Some(w)) = (expect_ok, want) {
+                        if w.to_bits() != bits && !(w == 0.0 && f64::from_bits(bits) == 0.0) {
+                            eprintln!("selftest: doc test line {} input {:?}: reference value {:e} != documented {:e}", t["line"], t["input"], f64::from_bits(bits), w);
+                            bad += 1;
+                        }
+                    }
+                    (true, String::new())
+                },
+                _ => (true, "special".into()),
+            }
+        } else {
+            match ref_parse_int(&input, &m, ty.starts_with('i')) {
+                RefI::Reject(why) => (false, why.to_string()),
+                RefI::Val(..) => (true, String::new()),
+            }
+        };
+        if accepted != expect_ok {
+            eprintln!(
+                "selftest: doc test (format_builder.rs:{}) {} {:?} [{}] documented {} but reference grammar says {} {}",
+                t["line"],
+                ty,
+                t["input"].as_str().unwrap(),
+                m.describe(),
+                t["expect"],
+                if accepted { "accept" } else { "reject" },
+                detail
+            );
+            bad += 1;
+        }
+    }
+    println!("doc-test conformance: {n} assertions, {bad} disagreements");
+    bad
+}
+
 pub fn run() -> bool {
     let args: Vec<String> = std::env::args().collect();
     if args.get(2).map(|s| s.as_str()) == Some("export-big") {
@@ -171,6 +240,7 @@ pub fn run() -> bool {
     bad += check_big(20_000);
     bad += check_round_vs_std::<f64>(60_000, 1);
     bad += check_round_vs_std::<f32>(60_000, 2);
+    bad += check_doc_tests();
     if bad == 0 {
         println!("selftest ok");
     } else {
